@@ -370,6 +370,13 @@ def v5(ctx):
                 dug = du if g is f else DefUse(ctx.cfg(g))
                 for o in origins(dug, nd, e):
                     v = o.leaf
+                    # a memoised helper whose body was spliced in here (helpers unknown to the reference tree are inlined)
+                    q_in = o.node.extra.get("inlined_from") if o.node is not None else None
+                    if q_in and q_in not in seen:
+                        seen.add(q_in)
+                        h = ctx.P.functions.get(q_in)
+                        if h is not None and any(d.split(".")[-1] in MEMOISERS for d in h.decorators):
+                            memo.append(h.short)
                     if o.kind != "expr" or not isinstance(v, ast.Call):
                         continue
                     res = ctx.P.resolve_call(g, v)
